@@ -39,12 +39,11 @@ def cfg_key(state):
     return d
 
 
-def scan_check(prop, prefixes, groups, camp_driver, tier, level="model_checking",
-               rule=None, assumptions=None, module="Campaign", require_patterns=None):
-    """camp_driver: dict campaign/family name -> driver module name (or (driver, groups))."""
-    t0 = time.time()
-    verdict = core.Verdict(prop)
+def scan_collect(prop, prefixes, camp_driver, tier, verdict, module="Campaign", require_patterns=None, groups=None):
+    """Run the scan campaigns, validate the traces, feed failed clauses of this property into
+    `verdict`; returns the statistics for the evidence file."""
     states, cres = core.enumerate_campaign(sorted(camp_driver), tier, prop, module=module)
+
     def drv(f):
         d = camp_driver[f]
         return d if isinstance(d, tuple) else (d, groups)
@@ -61,23 +60,24 @@ def scan_check(prop, prefixes, groups, camp_driver, tier, level="model_checking"
         events += ev
         npts += st["points"]; nj += st["jumps"]; evals += st["evals"]
         if st.get("pattern"):
-            patterns[(states[tid - 1]["fam"], st["pattern"], st.get("uclass", ""))] = patterns.get((states[tid - 1]["fam"], st["pattern"], st.get("uclass", "")), 0) + 1
-    # a solver that raises on an admissible configuration: reported under FIN (C20) only
+            k = (states[tid - 1]["fam"], st["pattern"], st.get("uclass", ""))
+            patterns[k] = patterns.get(k, 0) + 1
+    fin = any(p.startswith("FIN") for p in prefixes)
     for tid, err in errors:
         s = by_tid[tid]
-        if "FIN." in prefixes or "FIN" in prefixes:
-            verdict.fail({"cls": s["fam"], "clause": "FIN.raised", "cfg": cfg_key(s)},
-                         {"state": s, "error": err})
-    if errors and not ("FIN" in prefixes or "FIN." in prefixes):
+        # the Riemann solvers reject star states outside their bracketing interval [0, 10 max(pl, pr)]
+        # (and vacuum) with a ValueError: a loud rejection, which C20 allows
+        loud = s["fam"].startswith("Riemann") and err.startswith("ValueError")
+        if fin and not loud:
+            verdict.fail({"cls": s["fam"], "clause": "FIN.raised", "cfg": cfg_key(s)}, {"state": s, "error": err})
+    if errors and not fin:
         print("# note: %d configurations raised (judged by C20): e.g. %s" % (len(errors), errors[0][1].splitlines()[0]))
     tv = core.validate_trace("TraceScan", "TraceScan.cfg", events, prop)
     if not tv["accepted"]:
-        # structural rejection: the trace was not consumed to its end
         consumed = tv["depth"] - 1
         bad = events[consumed] if 0 <= consumed < len(events) else None
         verdict.fail({"cls": by_tid[bad["tid"]]["fam"] if bad else "?", "clause": "GRAM.reject", "cfg": {}},
                      {"reject_at": consumed, "event": bad})
-    nontrivial = set()
     clause_hits = 0
     for fl in tv["failed"]:
         s = by_tid[fl["tid"]]
@@ -88,36 +88,44 @@ def scan_check(prop, prefixes, groups, camp_driver, tier, level="model_checking"
             clause_hits += 1
             verdict.fail({"cls": s["fam"], "clause": clause, "region": e.get("reg"), "cfg": cfg_key(s)},
                          {"state": s, "event": e, "clause": clause})
-    # distinct non-trivial cases: (family, geometry, region/kind) triples in which a law of this
-    # property had operands (a finite point in that region / a located jump)
+    nontrivial = set()
     for e in events:
         if e["k"] == "Pt" and e["fin"]:
             s = by_tid[e["tid"]]
             nontrivial.add((s["fam"], s["geometry"], e["reg"], json.dumps(s["par"], sort_keys=True)))
-        elif e["k"] == "Jump":
+        elif e["k"] in ("Jump", "Int"):
             s = by_tid[e["tid"]]
-            nontrivial.add((s["fam"], s["geometry"], "jump", json.dumps(s["par"], sort_keys=True)))
-    # coverage obligation: every required wave pattern (x velocity class) was exercised
+            nontrivial.add((s["fam"], s["geometry"], e["k"], json.dumps(s["par"], sort_keys=True)))
     if require_patterns:
         have = {(k[1], k[2]) for k in patterns}
         missing = [p_ for p_ in require_patterns if p_ not in have]
         if missing:
             raise RuntimeError("coverage obligation not met, patterns never exercised: %r" % (missing,))
-    rc = verdict.finish()
     sample = [ev for ev in events[:400] if ev["k"] in ("Cfg", "Pt", "Jump")][:3]
-    cov = {"states": cres["distinct"] + tv["states"], "transitions": cres["states"] + tv["generated"],
-           "traces_validated_against_impl": len(states) - len(errors),
-           "samples": [{"campaign_state": states[0] if states else None, "events": sample}],
-           "evaluations": evals, "distinct_nontrivial": len(nontrivial),
+    return {"states": cres["distinct"] + tv["states"], "transitions": cres["states"] + tv["generated"],
+            "traces": len(states) - len(errors), "evaluations": evals, "distinct": len(nontrivial), "points": npts,
+            "jumps": nj, "events": len(events), "raised": len(errors), "clause_hits": clause_hits, "patterns": patterns,
+            "campaign_states": len(states), "sample": {"campaign_state": states[0] if states else None, "events": sample},
+            "families": sorted(camp_driver)}
+
+
+def scan_check(prop, prefixes, groups, camp_driver, tier, level="model_checking",
+               rule=None, assumptions=None, module="Campaign", require_patterns=None):
+    """camp_driver: dict campaign/family name -> driver module name (or (driver, groups))."""
+    t0 = time.time()
+    verdict = core.Verdict(prop)
+    r = scan_collect(prop, prefixes, camp_driver, tier, verdict, module, require_patterns, groups)
+    rc = verdict.finish()
+    cov = {"states": r["states"], "transitions": r["transitions"], "traces_validated_against_impl": r["traces"],
+           "samples": [r["sample"]], "evaluations": r["evaluations"], "distinct_nontrivial": r["distinct"],
            "rule": rule or ("configurations enumerated exhaustively by TLC from spec/Campaign.tla (tier constants); "
                             "one scan trace per configuration validated by spec/TraceScan.tla; a case is non-trivial "
-                            "when a finite point of a region (or a located jump) carried operands for this property's laws; "
+                            "when a finite point of a region (or a located jump / an integral budget) carried operands for this property's laws; "
                             "distinct = (family, parameter set, geometry, region)"),
-           "campaign_states": len(states), "scan_points": npts, "jumps_located": nj,
-           "trace_events": len(events), "solver_raised": len(errors),
-           "failed_clauses_this_property": clause_hits,
+           "campaign_states": r["campaign_states"], "scan_points": r["points"], "jumps_located": r["jumps"],
+           "trace_events": r["events"], "solver_raised": r["raised"], "failed_clauses_this_property": r["clause_hits"],
            "known_findings_hit": verdict.known, "exhaustive": True,
-           "wave_patterns_covered": {"%s/%s/%s" % k: v for k, v in sorted(patterns.items())},
-           "families": sorted(camp_driver)}
+           "wave_patterns_covered": {"%s/%s/%s" % k: v for k, v in sorted(r["patterns"].items())},
+           "families": r["families"]}
     core.write_evidence(prop, tier, level, cov, time.time() - t0, len(verdict.violations), assumptions)
     return rc
